@@ -76,6 +76,8 @@ var c18Templates = []c18Tpl{
 	{src: "{{ lb | sort | join: ',' }}|{{ lb | uniq | join: ',' }}|{{ lb | sort | uniq | size }}|{% if lb contains 10 %}A{% endif %}{% if lb contains 5.0 %}B{% endif %}|{{ lb | reverse | first }}|{{ lb[29] }}|{{ lb | join: '' | size }}"},
 	{src: "{{ ld | uniq | join: ',' }}|{{ ld | uniq | size }}|{{ ld | sort | uniq | join }}|{{ ld | reverse | uniq | join }}|{% if ld contains 'c' %}C{% endif %}"},
 	{src: "{% if l contains 2 %}A{% endif %}{% if l contains n %}B{% endif %}{% if l2 contains 2 %}C{% else %}D{% endif %}{% if l == l %}E{% endif %}{% if l == l2 %}F{% else %}G{% endif %}"},
+	// integers where a COUNT or a POSITION is meant: an index, a loop's limit / offset / cols, the bounds of a range
+	{src: "{{ l[g] }}|{{ lb[n] }}|{{ l[0] }}{% for x in lb limit: n %}{{ x }},{% endfor %}|{% for x in lb offset: n limit: n %}{{ x }},{% endfor %}|{% tablerow x in l cols: n %}{{ x }}{% endtablerow %}|{% for x in (g..n) %}{{ x }}{% endfor %}|{% for x in (1..n) reversed %}{{ x }}{% endfor %}|{% assign r = (g..n) %}{{ r | size }}"},
 	// strings
 	{src: "{{ s }}|{{ e }}|{{ u }}"},
 	{src: "{{ s | upcase }}|{{ u | capitalize }}|{{ s | append: 'x' }}|{{ u | size }}|{{ s | slice: 1 }}|{{ u | truncate: 2, '' }}|{{ s | replace: 'a', 'z' }}|{{ e | default: 'dflt' }}", noBytes: true},
@@ -646,7 +648,7 @@ func init() {
 	explore.Register(&explore.Prop{
 		ID:    "C18",
 		Level: "model_checking",
-		Rule: "one logical binding environment (19 bindings: ints, floats, strings, bool, nil, flat/nested/empty lists, maps, list of maps; ~60 value-tree nodes) x 27 templates using each binding only in the positions the statement names; every node independently chooses a Go representation (numeric width, Drop by value / by pointer, pointer, typed slice, fixed array, typed map, MapSlice, []byte); " +
+		Rule: "one logical binding environment (19 bindings: ints, floats, strings, bool, nil, flat/nested/empty lists, maps, list of maps; ~60 value-tree nodes) x 28 templates using each binding only in the positions the statement names (one of them: integers as index, loop limit / offset / cols and range bounds); every node independently chooses a Go representation (numeric width, Drop by value / by pointer, pointer, typed slice, fixed array, typed map, MapSlice, []byte); " +
 			"deviation-bounded exploration: all assignments with <=1 (quick) / <=3 (thorough) non-default nodes among the nodes a template uses; oracle = output of the all-generic assignment; " +
 			"state = multiset of non-default representations; transition/trace = one assignment rendered",
 		Assumptions: []string{
